@@ -429,6 +429,8 @@ def r17_7(ctx):
     for x in stores:
         v = x.value
         old_ = norm(x.targets[0])
+        # a temporary holding the old text (`plain = line.plain`, read before the store) stands for it
+        v = _inl177(v, {k_: v_ for k_, v_ in sd177.items() if norm(v_) == old_})
         if isinstance(v, ast.BinOp) and isinstance(v.op, ast.Add) and isinstance(v.right, ast.Subscript) and norm(v.right.value) == old_ and isinstance(v.right.slice, ast.Slice) and v.right.slice.upper is None and v.right.slice.lower is not None:
             lo_ = norm(_inl177(v.right.slice.lower, {k_: v_ for k_, v_ in sd177.items() if k_ != norm(v.left)}))
             if lo_ == f"len({norm(v.left)})":
@@ -440,7 +442,14 @@ def r17_7(ctx):
         raise AnalysisError("Text.with_indent_guides: the store `line.plain = <guides> + line.plain[len(<guides>):]` was not found; written differently, this clause is not decided")
     if okst:
         ctx.ok(f.where, "exactly the leading len(new_indent) characters are replaced", f.fq)
-    ctx.shape("divmod(len(indent), _indent_size)" in src, f.fq, "divmod(len(indent), _indent_size)", f.where, "the guide prefix is as long as the indentation", "the guide prefix is not built from divmod(len(indent), indent_size)")
+    # the guide prefix is as long as the indentation: quotient and remainder of len(<indentation group>) by the indent size
+    dm_ok = False
+    for c in walk_local(f.node):
+        if isinstance(c, ast.Call) and norm(c.func) == "divmod" and len(c.args) == 2 and isinstance(c.args[0], ast.Call) and norm(c.args[0].func) == "len" and len(c.args[0].args) == 1:
+            what = norm(_inl177(c.args[0].args[0], sd177))
+            if what.endswith(".group(1)") or what.endswith("[1]"):
+                dm_ok = True
+    ctx.shape(dm_ok, f.fq, "divmod(len(indent), _indent_size)", f.where, "the guide prefix is as long as the indentation", "the guide prefix is not built from divmod(len(indent), indent_size)")
     ctx.shape("indent_line = f\"{character}{' ' * (_indent_size - 1)}\"" in src or "indent_line" in src, f.fq, "indent_line", f.where, "one guide character plus spaces per indent level", "indent_line is no longer one guide character plus spaces")
 
 
